@@ -21,7 +21,7 @@ pub open spec fn covers(w: Seq<int>, data: Seq<u8>, rs: int, psz: int, n: int, k
 }
 
 pub proof fn lemma_geom(rs: int, psz: int, i: int, n: int)
-    requires 0 <= i < n, 0 <= psz, 0 <= rs,
+    requires /*@C09*/ 0 <= i < n, 0 <= psz, 0 <= rs,   // tagged: the entry about to be read is inside the table
     ensures
         rs <= off(rs, psz, i),
         off(rs, psz, i + 1) == off(rs, psz, i) + psz,
@@ -63,7 +63,8 @@ pub proof fn lemma_push(w: Seq<int>, x: int)
 
 // one more matching entry `b` recorded
 pub proof fn lemma_cover_push(w: Seq<int>, data: Seq<u8>, rs: int, psz: int, n: int, key: u64, a: int, b: int, h: int)
-    requires covers(w, data, rs, psz, n, key, a, b, h), w.no_duplicates(), a <= b < h, 0 <= b < n, tkey(data, rs, psz, b) == key,
+    // (tagged: at the call sites these say that the entry just read matches and has not been recorded yet)
+    requires /*@C09*/ covers(w, data, rs, psz, n, key, a, b, h), w.no_duplicates(), a <= b < h, 0 <= b < n, tkey(data, rs, psz, b) == key,
     ensures covers(w.push(b), data, rs, psz, n, key, a, b + 1, h), w.push(b).no_duplicates(),
 {
     lemma_push(w, b);
@@ -120,11 +121,11 @@ pub proof fn lemma_witness<R: VxReadSeek, V, F: VxReadValueFn<R, V>>(f: F, data:
     requires
         search_pre::<Value>(old(reader).data(), read_start, num_entries),
     ensures
-        final(reader).data() == old(reader).data(),
-        final(result)@.len() == old(result)@.len(),
+        /*@AUX*/ final(reader).data() == old(reader).data(),
+        /*@AUX*/ final(result)@.len() == old(result)@.len(),
         // it fails only when an operation on the reader failed
         /*@C09*/ ret is Err ==> final(reader).failed(),
-        old(reader).failed() ==> final(reader).failed(),
+        /*@AUX*/ old(reader).failed() ==> final(reader).failed(),
         // every read attempted by the search (successful or not) lies inside the table
         /*@C09*/ search_reads_ok::<Value>(old(reader).log(), final(reader).log(), read_start, num_entries),
         // the number returned is min(#entries with the key, |result|)
@@ -155,23 +156,23 @@ pub proof fn lemma_witness<R: VxReadSeek, V, F: VxReadValueFn<R, V>>(f: F, data:
             rs + n * psz <= u64::MAX, sorted(d0, rs, psz, n), reader.data() == d0, d0 == old(reader).data(), old(reader).failed() ==> reader.failed(),
             result@.len() == old(result)@.len(),
             l0 == old(reader).log().len(), reader.log().len() >= l0, reader.log().subrange(0, l0) == old(reader).log(),
-            log_within(reader.log(), l0, rs, rs + n * psz),
-            0 <= lo < hi <= n + 1,
+            /*@C09*/ log_within(reader.log(), l0, rs, rs + n * psz),
+            /*@C09*/ 0 <= lo < hi <= n + 1,
             0 <= lo * psz <= n * psz,
             lo_key <= key <= hi_key,
-            lo >= 1 ==> tkey(d0, rs, psz, lo - 1) < key,
-            lo + 256 < hi ==> lo < probe_index < hi,
-            covers(w, d0, rs, psz, n, key, hi - 1, hi - 1, hi - 1),
-            w.no_duplicates(),
-            result_write_idx == min_int(w.len() as int, result@.len() as int),
-            forall|k: int| 0 <= k < result_write_idx ==> result@[k] == tval::<R, Value, ReadValueFunction>(read_value_function, d0, rs, psz, #[trigger] w[k]),
-            forall|k: int| result_write_idx <= k < result@.len() ==> result@[k] == old(result)@[k],
-        decreases hi - lo,
+            /*@C09*/ lo >= 1 ==> tkey(d0, rs, psz, lo - 1) < key,
+            /*@C09*/ lo + 256 < hi ==> lo < probe_index < hi,
+            /*@C09*/ covers(w, d0, rs, psz, n, key, hi - 1, hi - 1, hi - 1),
+            /*@C09*/ w.no_duplicates(),
+            /*@C09*/ result_write_idx == min_int(w.len() as int, result@.len() as int),
+            /*@C09*/ forall|k: int| 0 <= k < result_write_idx ==> result@[k] == tval::<R, Value, ReadValueFunction>(read_value_function, d0, rs, psz, #[trigger] w[k]),
+            /*@C09*/ forall|k: int| result_write_idx <= k < result@.len() ==> result@[k] == old(result)@[k],
+        /*@C09*/ decreases hi - lo,
 //@ before `reader.seek(` #1
         proof { lemma_geom(rs, psz, probe_index - 1, n); }
 //@ after `let probe_key = read_u64(reader)?;`
         proof {
-            assert(probe_key == tkey(d0, rs, psz, probe_index - 1));
+            /*@C09*/ assert(probe_key == tkey(d0, rs, psz, probe_index - 1));
             g0 = probe_index - 1;
             if probe_key == key {
                 // the probed entry matches: it is recorded by the first write_result of the Equal arm
@@ -182,26 +183,26 @@ pub proof fn lemma_witness<R: VxReadSeek, V, F: VxReadValueFn<R, V>>(f: F, data:
         }
 //@ loop 2
                     invariant_except_break
-                        g == vx_it1 - 1,
-                        reader.pos() == off(rs, psz, g),
+                        /*@C09*/ g == vx_it1 - 1,   // the duplicate scan visits consecutive entries starting right after the probe
+                        /*@C09*/ reader.pos() == off(rs, psz, g),
                     invariant
                         /*@C09*/ pair_size == psz, /*@C09*/ psz == size_of::<Value>() + 8, psz <= usize::MAX, n == num_entries, rs == read_start,
                         rs + n * psz <= u64::MAX, sorted(d0, rs, psz, n), reader.data() == d0, d0 == old(reader).data(), old(reader).failed() ==> reader.failed(),
                         result@.len() == old(result)@.len(),
                         l0 == old(reader).log().len(), reader.log().len() >= l0, reader.log().subrange(0, l0) == old(reader).log(),
-                        log_within(reader.log(), l0, rs, rs + n * psz),
-                        0 <= lo < probe_index < hi <= n + 1,
-                        g0 == probe_index - 1, g0 < g <= hi - 1,
-                        tkey(d0, rs, psz, g0) == key,
-                        covers(w, d0, rs, psz, n, key, g0, g, hi - 1),
-                        w.no_duplicates(),
-                        result_write_idx == min_int(w.len() as int, result@.len() as int),
-                        forall|k: int| 0 <= k < result_write_idx ==> result@[k] == tval::<R, Value, ReadValueFunction>(read_value_function, d0, rs, psz, #[trigger] w[k]),
-                        forall|k: int| result_write_idx <= k < result@.len() ==> result@[k] == old(result)@[k],
+                        /*@C09*/ log_within(reader.log(), l0, rs, rs + n * psz),
+                        /*@C09*/ 0 <= lo < probe_index < hi <= n + 1,
+                        /*@C09*/ g0 == probe_index - 1, g0 < g <= hi - 1,
+                        /*@C09*/ tkey(d0, rs, psz, g0) == key,
+                        /*@C09*/ covers(w, d0, rs, psz, n, key, g0, g, hi - 1),
+                        /*@C09*/ w.no_duplicates(),
+                        /*@C09*/ result_write_idx == min_int(w.len() as int, result@.len() as int),
+                        /*@C09*/ forall|k: int| 0 <= k < result_write_idx ==> result@[k] == tval::<R, Value, ReadValueFunction>(read_value_function, d0, rs, psz, #[trigger] w[k]),
+                        /*@C09*/ forall|k: int| result_write_idx <= k < result@.len() ==> result@[k] == old(result)@[k],
                     ensures
-                        covers(w, d0, rs, psz, n, key, g0, g0, g0),
+                        /*@C09*/ covers(w, d0, rs, psz, n, key, g0, g0, g0),
 //@ before `if read_u64(reader)? != key`
-                    proof { lemma_geom(rs, psz, g, n); assert(tkey(d0, rs, psz, g) == spec_u64_at(d0, reader.pos())); }
+                    proof { lemma_geom(rs, psz, g, n); /*@C09*/ assert(tkey(d0, rs, psz, g) == spec_u64_at(d0, reader.pos())); }
 //@ after `if read_u64(reader)? != key { break; }`
                     proof {
                         lemma_cover_push(w, d0, rs, psz, n, key, g0, g, hi - 1);
@@ -214,19 +215,19 @@ pub proof fn lemma_witness<R: VxReadSeek, V, F: VxReadValueFn<R, V>>(f: F, data:
             rs + n * psz <= u64::MAX, sorted(d0, rs, psz, n), reader.data() == d0, d0 == old(reader).data(), old(reader).failed() ==> reader.failed(),
             result@.len() == old(result)@.len(),
             l0 == old(reader).log().len(), reader.log().len() >= l0, reader.log().subrange(0, l0) == old(reader).log(),
-            log_within(reader.log(), l0, rs, rs + n * psz),
-            0 <= lo < hi <= n + 1,
-            reader.pos() == off(rs, psz, lo as int),
-            covers(w, d0, rs, psz, n, key, 0, lo as int, hi - 1),
-            w.no_duplicates(),
-            result_write_idx == min_int(w.len() as int, result@.len() as int),
-            forall|k: int| 0 <= k < result_write_idx ==> result@[k] == tval::<R, Value, ReadValueFunction>(read_value_function, d0, rs, psz, #[trigger] w[k]),
-            forall|k: int| result_write_idx <= k < result@.len() ==> result@[k] == old(result)@[k],
+            /*@C09*/ log_within(reader.log(), l0, rs, rs + n * psz),
+            /*@C09*/ 0 <= lo < hi <= n + 1,
+            /*@C09*/ reader.pos() == off(rs, psz, lo as int),
+            /*@C09*/ covers(w, d0, rs, psz, n, key, 0, lo as int, hi - 1),
+            /*@C09*/ w.no_duplicates(),
+            /*@C09*/ result_write_idx == min_int(w.len() as int, result@.len() as int),
+            /*@C09*/ forall|k: int| 0 <= k < result_write_idx ==> result@[k] == tval::<R, Value, ReadValueFunction>(read_value_function, d0, rs, psz, #[trigger] w[k]),
+            /*@C09*/ forall|k: int| result_write_idx <= k < result@.len() ==> result@[k] == old(result)@[k],
         ensures
-            covers(w, d0, rs, psz, n, key, 0, 0, 0),
-        decreases hi - lo,
+            /*@C09*/ covers(w, d0, rs, psz, n, key, 0, 0, 0),
+        /*@C09*/ decreases hi - lo,
 //@ before `let (probe_key, probe_value)`
-        proof { lemma_geom(rs, psz, lo as int, n); assert(tkey(d0, rs, psz, lo as int) == spec_u64_at(d0, reader.pos())); }
+        proof { lemma_geom(rs, psz, lo as int, n); /*@C09*/ assert(tkey(d0, rs, psz, lo as int) == spec_u64_at(d0, reader.pos())); }
 //@ after `let (probe_key, probe_value) = (read_u64(reader)?, read_value_function.call(reader)?);`
         proof {
             if probe_key == key {
